@@ -679,7 +679,8 @@ for _lay in ("l2a", "l1", "l0b"):
 GEN_SORTER = []
 ENT_FUNCS = ["EntryBoundAlignedBuffer::new/deref/deref_mut/drop (alloc/dealloc)", "Entries::with_capacity/insert/fits/remaining/entry_size/reallocate_buffer/"
              "sort_by_key/iter/clear/memory_usage/estimated_entries_memory_usage", "bytemuck::cast_slice/cast_slice_mut", "std slice sort_by_key / sort_unstable_by_key"]
-HARNESSES.append(H("merger::verif_h::c06_entry_order", ["C06"], kind="K", layer="L3", timeout=900,
+HARNESSES.append(H("merger::verif_h::c06_entry_order", ["C06"], kind="K", layer="L3", timeout=900, replay="native", mode="mergesearch", layout="l0s",
+                   vec_order=["entries", "entries", "entries"],
                    decides="Ord/PartialOrd/Eq for merger::Entry over three sources positioned on symbolic keys (any overlap) and symbolic source indices: the "
                            "heap order is exactly the reverse of the lexicographic order on (current key, source index), so equal keys pop in the order their "
                            "sources were added",
@@ -954,7 +955,7 @@ def spec_from_vectors(h, vecs):
     kinds, probes = [], []
     for tok in h.get("vec_order", ["entries", "probe"]):
         if tok == "entries":
-            for _ in range(n):
+            for _ in range(1 if h.get("mode") == "mergesearch" else n):
                 ln = usize()
                 kb = [byte() for _ in range(kl)]
                 lines.append("key " + _hexs(kb[:ln]))
@@ -974,6 +975,8 @@ def spec_from_vectors(h, vecs):
         if not probes:
             lines.append("probe -")
         lines.append("mode search 6")
+    elif mode == "mergesearch":
+        lines.append("mode mergesearch")
     else:
         lines.append("mode %s %s" % (mode, " ".join(kinds)))
     return "\n".join(lines) + "\n"
